@@ -29,12 +29,19 @@
 (* Not runs its operand without a frame; "zero": every binding gets bit 0; *)
 (* "keep": pop forgets to delete).  TLC refutes OpEqualsDen for each       *)
 (* deviation (self-test that the invariant is not vacuous).                *)
+(*                                                                         *)
+(* Absent optional children (the nil ast.Expr the matcher meets for the    *)
+(* Low / High / Max of `s[:n]`) are the value Absent.  A name that meets   *)
+(* Absent is BOUND to it (the State map holds the key with a nil value);   *)
+(* NilMode names the design ("commaok": bound = the key is in the map) and *)
+(* the deviation "nonnil" (bound = the map's value is not nil, so a name   *)
+(* bound to an absent child looks unbound and is silently re-bound).       *)
 (***************************************************************************)
 EXTENDS Integers, Sequences, FiniteSets, TLC, Json
 
 CONSTANTS
   Names,      \* binding names (at most 64: one bit each in the frame bit set)
-  MergeMode, NotMode, IdxMode, PopMode
+  MergeMode, NotMode, IdxMode, PopMode, NilMode
 \* The sequences of abstract patterns / trees to explore are parameters (ps, ts) of the actions
 \* below; the MC modules instantiate them with their families.  (A family handed over as a cfg
 \* constant is re-evaluated by TLC at every use: measured 0.1 s per access.)
@@ -46,14 +53,24 @@ vars == <<pi, ti, res>>
 
 -----------------------------------------------------------------------------
 (* Values.  Trees:  [k:"id",n] | [k:"bin",op,x,y] | [k:"call",f,args] with *)
-(* args = [k:"list",es]; further values a pattern can meet or bind:        *)
-(* [k:"str",s] (Ident.Name), [k:"tok",s] (BinaryExpr.Op) and [k:"list",es] *)
-(* ([]ast.Expr).                                                           *)
+(* args = [k:"list",es] | [k:"slice",x,lo,hi,max] (ast.SliceExpr; lo, hi   *)
+(* and max are trees or Absent); further values a pattern can meet or      *)
+(* bind: [k:"str",s] (Ident.Name), [k:"tok",s] (BinaryExpr.Op),            *)
+(* [k:"list",es] ([]ast.Expr) and Absent = [k:"absent"], the untyped nil   *)
+(* that matchNodeAST hands to the field pattern of an optional child that  *)
+(* is not there.  Absent is a value like any other: `_` matches it, a name *)
+(* binds it, it is structurally equal to itself only; node, string and     *)
+(* list patterns fail on it.  It is NOT Unbound (the name has no entry).   *)
 (* Patterns: any | str(s) | ref(n) | bind(n,sub) | id(name) | bin(x,o,y) | *)
-(*   call(f,args) | nil ([] = (List nil nil)) | cons(h,t) | or(alts) |     *)
-(*   not(a).                                                               *)
+(*   call(f,args) | slice(x,lo,hi,max) | nil ([] = (List nil nil), the     *)
+(*   empty-list pattern) | pnil (the atom `nil`, pattern.Nil) | cons(h,t)  *)
+(*   | or(alts) | not(a).                                                  *)
+(* The text (Binding "x" nil) is the plain reference ref(x)                *)
+(* (Binding.Match: isNil(b.Node)), so bind(x, pnil) is not a pattern of    *)
+(* its own (WellFormed rejects it).                                        *)
 (***************************************************************************)
 Unbound == [k |-> "unbound"]
+Absent  == [k |-> "absent"]
 Str(s)  == [k |-> "str", s |-> s]
 Tok(s)  == [k |-> "tok", s |-> s]
 \* String.Match: a string pattern matches an equal string, or the token it spells
@@ -74,14 +91,34 @@ ListTail(v) == [k |-> "list", es |-> Tail(v.es)]
 (* x may already be bound ("It is an error to provide a non-nil node to a  *)
 (* binding that has already been bound", doc.go).  MayBind over-           *)
 (* approximates the names bound when a sub-pattern was (partly) evaluated. *)
+(*                                                                         *)
+(* Two restrictions on the atom `nil` keep the model honest: (Binding "x"  *)
+(* nil) is the reference x, not a defining occurrence; and `nil` does not  *)
+(* occur inside a list pattern or the argument list of a CallExpr, where   *)
+(* it would meet a []ast.Expr: Nil.Match accepts a nil slice and rejects   *)
+(* an empty non-nil one, a difference of representation the abstract       *)
+(* lists do not have.                                                      *)
 (***************************************************************************)
-RECURSIVE NamesOf(_), MayBind(_, _), WF(_, _)
+RECURSIVE NamesOf(_), MayBind(_, _), WF(_, _), HasPNil(_)
+HasPNil(q) ==
+  CASE q.k = "pnil" -> TRUE
+    [] q.k = "bind" -> HasPNil(q.sub)
+    [] q.k = "id"   -> HasPNil(q.name)
+    [] q.k = "bin"  -> HasPNil(q.x) \/ HasPNil(q.o) \/ HasPNil(q.y)
+    [] q.k = "call" -> HasPNil(q.f) \/ HasPNil(q.args)
+    [] q.k = "slice" -> HasPNil(q.x) \/ HasPNil(q.lo) \/ HasPNil(q.hi) \/ HasPNil(q.max)
+    [] q.k = "cons" -> HasPNil(q.h) \/ HasPNil(q.t)
+    [] q.k = "or"   -> \E i \in 1..Len(q.alts) : HasPNil(q.alts[i])
+    [] q.k = "not"  -> HasPNil(q.a)
+    [] OTHER        -> FALSE
+
 NamesOf(q) ==
   CASE q.k = "ref"  -> {q.n}
     [] q.k = "bind" -> {q.n} \cup NamesOf(q.sub)
     [] q.k = "id"   -> NamesOf(q.name)
     [] q.k = "bin"  -> NamesOf(q.x) \cup NamesOf(q.o) \cup NamesOf(q.y)
     [] q.k = "call" -> NamesOf(q.f) \cup NamesOf(q.args)
+    [] q.k = "slice" -> NamesOf(q.x) \cup NamesOf(q.lo) \cup NamesOf(q.hi) \cup NamesOf(q.max)
     [] q.k = "cons" -> NamesOf(q.h) \cup NamesOf(q.t)
     [] q.k = "or"   -> UNION { NamesOf(q.alts[i]) : i \in 1..Len(q.alts) }
     [] q.k = "not"  -> NamesOf(q.a)
@@ -93,16 +130,19 @@ MayBind(q, B) ==
     [] q.k = "id"   -> MayBind(q.name, B)
     [] q.k = "bin"  -> MayBind(q.y, MayBind(q.o, MayBind(q.x, B)))
     [] q.k = "call" -> MayBind(q.args, MayBind(q.f, B))
+    [] q.k = "slice" -> MayBind(q.max, MayBind(q.hi, MayBind(q.lo, MayBind(q.x, B))))
     [] q.k = "cons" -> MayBind(q.t, MayBind(q.h, B))
     [] q.k = "or"   -> B \cup UNION { MayBind(q.alts[i], B) : i \in 1..Len(q.alts) }
-    [] OTHER        -> B       \* any, str, nil, not
+    [] OTHER        -> B       \* any, str, nil, pnil, not
 
 WF(q, B) ==
-  CASE q.k = "bind" -> q.n \notin B /\ q.n \notin NamesOf(q.sub) /\ WF(q.sub, B)
+  CASE q.k = "bind" -> q.n \notin B /\ q.n \notin NamesOf(q.sub) /\ q.sub.k # "pnil" /\ WF(q.sub, B)
     [] q.k = "id"   -> WF(q.name, B)
     [] q.k = "bin"  -> WF(q.x, B) /\ WF(q.o, MayBind(q.x, B)) /\ WF(q.y, MayBind(q.o, MayBind(q.x, B)))
-    [] q.k = "call" -> WF(q.f, B) /\ WF(q.args, MayBind(q.f, B))
-    [] q.k = "cons" -> WF(q.h, B) /\ WF(q.t, MayBind(q.h, B))
+    [] q.k = "call" -> WF(q.f, B) /\ WF(q.args, MayBind(q.f, B)) /\ ~HasPNil(q.args)
+    [] q.k = "slice" -> LET B1 == MayBind(q.x, B)  B2 == MayBind(q.lo, B1)  B3 == MayBind(q.hi, B2) IN
+                        WF(q.x, B) /\ WF(q.lo, B1) /\ WF(q.hi, B2) /\ WF(q.max, B3)
+    [] q.k = "cons" -> WF(q.h, B) /\ WF(q.t, MayBind(q.h, B)) /\ ~HasPNil(q)
     [] q.k = "or"   -> \A i \in 1..Len(q.alts) : WF(q.alts[i], B)
     [] q.k = "not"  -> WF(q.a, B)
     [] OTHER        -> TRUE
@@ -124,6 +164,7 @@ NameOrder(q) ==
     [] q.k = "id"   -> NameOrder(q.name)
     [] q.k = "bin"  -> NameOrder(q.x) \o NameOrder(q.o) \o NameOrder(q.y)
     [] q.k = "call" -> NameOrder(q.f) \o NameOrder(q.args)
+    [] q.k = "slice" -> NameOrder(q.x) \o NameOrder(q.lo) \o NameOrder(q.hi) \o NameOrder(q.max)
     [] q.k = "cons" -> NameOrder(q.h) \o NameOrder(q.t)
     [] q.k = "or"   -> Concat([i \in 1..Len(q.alts) |-> NameOrder(q.alts[i])], 1)
     [] q.k = "not"  -> NameOrder(q.a)
@@ -173,7 +214,21 @@ Den(q, v, env) ==
               IF r1.r # "ok" THEN r1
               ELSE LET r2 == Den(q.args, w.args, r1.env) IN
                    IF r2.r # "ok" THEN r2 ELSE DOk(r2.env, w, r1.log \cup r2.log)
+    [] q.k = "slice" ->                                 \* the optional children are matched as they are: a tree or Absent
+         LET w == Solo(v) IN
+         IF w.k # "slice" THEN DFail
+         ELSE LET r1 == Den(q.x, w.x, env) IN
+              IF r1.r # "ok" THEN r1
+              ELSE LET r2 == Den(q.lo, w.lo, r1.env) IN
+                   IF r2.r # "ok" THEN r2
+                   ELSE LET r3 == Den(q.hi, w.hi, r2.env) IN
+                        IF r3.r # "ok" THEN r3
+                        ELSE LET r4 == Den(q.max, w.max, r3.env) IN
+                             IF r4.r # "ok" THEN r4
+                             ELSE DOk(r4.env, w, r1.log \cup r2.log \cup r3.log \cup r4.log)
     [] q.k = "nil" -> IF v.k = "list" /\ Len(v.es) = 0 THEN DOk(env, v, {}) ELSE DFail
+    \* the atom `nil` matches an absent child (lists are excluded by WellFormed, see above)
+    [] q.k = "pnil" -> IF v = Absent THEN DOk(env, Absent, {}) ELSE DFail
     [] q.k = "cons" ->
          IF v.k # "list" THEN DFail
          ELSE IF Len(v.es) = 0 THEN DFail
@@ -215,6 +270,11 @@ Merge(st) ==
   [st EXCEPT !.fr = IF MergeMode = "union" /\ Len(rest) > 0
                     THEN [rest EXCEPT ![Len(rest)] = @ \cup top] ELSE rest]
 
+\* "is the name bound?"  The design asks whether the State map has the key (a name bound to an
+\* absent child has the key with a nil value); the deviation asks whether the value is non-nil.
+IsBound(st, n) == IF NilMode = "commaok" THEN st.env[n] # Unbound
+                  ELSE st.env[n] # Unbound /\ st.env[n] # Absent
+
 ROk(st, v) == [r |-> "ok",    st |-> st, val |-> v]
 RFail(st)  == [r |-> "fail",  st |-> st, val |-> Unbound]   \* partial bindings stay in st, as in the code
 RPanic(st) == [r |-> "panic", st |-> st, val |-> Unbound]   \* "binding already created"
@@ -223,12 +283,12 @@ RECURSIVE Op(_, _, _, _), OpOr(_, _, _, _, _)
 Op(q, v, st, bs) ==
   CASE q.k = "any" -> ROk(st, v)
     [] q.k = "str" -> IF StrMatches(q, v) THEN ROk(st, v) ELSE RFail(st)
-    [] q.k = "ref" ->                                   \* Binding.Match, Node = nil
-         IF st.env[q.n] # Unbound
+    [] q.k = "ref" ->                                   \* Binding.Match, isNil(Node): `v, ok := State[name]; if ok`
+         IF IsBound(st, q.n)
          THEN IF RecallEq(st.env[q.n], v) THEN ROk(st, v) ELSE RFail(st)
          ELSE ROk(Set(st, bs, q.n, v), v)
     [] q.k = "bind" ->                                  \* Binding.Match, Node # nil
-         IF st.env[q.n] # Unbound THEN RPanic(st)
+         IF IsBound(st, q.n) THEN RPanic(st)
          ELSE LET r == Op(q.sub, v, st, bs) IN
               IF r.r # "ok" THEN r ELSE ROk(Set(r.st, bs, q.n, r.val), r.val)
     [] q.k = "id" ->                                    \* matchNodeAST
@@ -252,7 +312,19 @@ Op(q, v, st, bs) ==
               IF r1.r # "ok" THEN r1
               ELSE LET r2 == Op(q.args, w.args, r1.st, bs) IN
                    IF r2.r # "ok" THEN r2 ELSE ROk(r2.st, w)
-    [] q.k = "nil" -> IF v.k = "list" /\ Len(v.es) = 0 THEN ROk(st, v) ELSE RFail(st)
+    [] q.k = "slice" ->                                 \* matchNodeAST: X, Low, High, Max; bf.Interface() of a nil
+         LET w == Solo(v) IN                            \* ast.Expr field is the untyped nil = Absent
+         IF w.k # "slice" THEN RFail(st)                \* (incl. `case nil: return nil, a == Nil{}` for v = Absent)
+         ELSE LET r1 == Op(q.x, w.x, st, bs) IN
+              IF r1.r # "ok" THEN r1
+              ELSE LET r2 == Op(q.lo, w.lo, r1.st, bs) IN
+                   IF r2.r # "ok" THEN r2
+                   ELSE LET r3 == Op(q.hi, w.hi, r2.st, bs) IN
+                        IF r3.r # "ok" THEN r3
+                        ELSE LET r4 == Op(q.max, w.max, r3.st, bs) IN
+                             IF r4.r # "ok" THEN r4 ELSE ROk(r4.st, w)
+    [] q.k = "nil" -> IF v.k = "list" /\ Len(v.es) = 0 THEN ROk(st, v) ELSE RFail(st)   \* List.Match: nil is no slice
+    [] q.k = "pnil" -> IF v = Absent THEN ROk(st, Absent) ELSE RFail(st)                \* Nil.Match: isNil(node)
     [] q.k = "cons" ->                                  \* List.Match: the tail is matched even if the head failed
          IF v.k # "list" THEN RFail(st)
          ELSE IF Len(v.es) = 0 THEN RFail(st)
@@ -287,7 +359,7 @@ NoRes == [done |-> FALSE]
 
 \* pairs whose root kinds differ fail before any binding is touched: one representative tree per
 \* pattern is kept for them (the first such tree), the rest is skipped
-NodeKinds == {"id", "bin", "call"}
+NodeKinds == {"id", "bin", "call", "slice"}
 Trivial(q, v) == q.k \in NodeKinds /\ v.k # q.k
 TreesFor(q, ts) ==
   LET all  == 1..Len(ts)
